@@ -751,8 +751,12 @@ func verifHosts(l *roundRobinLoadBalancer) []*Host { return l.hosts.Load().([]*H
 //@   invariant pending-connect-armed: connectTimer != nil && (pendingConnect ==> connectTimer.$armed) [C16]
 //@   invariant reset-after-success: $cpConnected ==> $cpReset [C16]
 //@   invariant backoff-from-policy: $cpTimersOK [C16]
+// "reset after success", per connection: the delays of one pooled connection come from a policy object of its
+// own - another connection's failed attempts (a host that is down) do not lengthen them
+//@   invariant own-policy: $cpOwnPolicy [C16]
 
 //@ func proxycore.connPool.stayConnected [C16, C17, C18]
+//@   local $cpOwnPolicy bool = true
 //@   local $cpConnected bool = false
 //@   local $cpReset bool = false
 //@   local $cpLastDelay time.Duration = 0
@@ -760,9 +764,10 @@ func verifHosts(l *roundRobinLoadBalancer) []*Host { return l.hosts.Load().([]*H
 //@   requires p != nil && p.connsMu != nil && p.config.ReconnectPolicy != nil && p.logger != nil && 0 <= idx && idx < len(p.conns)
 //@   after select#* set $cpConnected = false; $cpReset = false; connectTimer.$armed = connectTimer.$armed && !(selcases == 2 && selidx == 1 && conn == nil)
 //@   after proxycore.ReconnectPolicy.NextDelay#* set $cpLastDelay = result
+//@   before proxycore.ReconnectPolicy.NextDelay#* set $cpOwnPolicy = $cpOwnPolicy && fresh(recv)
 //@   before time.NewTimer#* set $cpTimersOK = $cpTimersOK && arg0 == $cpLastDelay
 //@   after proxycore.connPool.connect#* set $cpConnected = (result1 == nil)
-//@   before proxycore.ReconnectPolicy.Reset#* set $cpReset = true
+//@   before proxycore.ReconnectPolicy.Reset#* set $cpReset = true; $cpOwnPolicy = $cpOwnPolicy && fresh(recv)
 //@   modifies *, any(time.Timer).$armed
 
 // sendEvent: every registered listener is handed the event, once (the listeners are what turns a
@@ -843,8 +848,10 @@ func verifHosts(l *roundRobinLoadBalancer) []*Host { return l.hosts.Load().([]*H
 //@ iface proxycore.ClusterListener.OnEvent
 //@   preserves-type proxycore.Cluster, proxycore.ClusterConfig
 //@   modifies *
-//@ iface proxycore.ReconnectPolicy.Clone
-//@   ensures result != nil
+// Clone hands out a policy object of its own (the attempt counter is per reconnecting goroutine); proved for
+// the default policy (defaultReconnectPolicy.Clone above), assumed of other implementations
+//@ iface proxycore.ReconnectPolicy.Clone [C16]
+//@   ensures result != nil && fresh(result)
 //@   modifies nothing
 //@ iface proxycore.ReconnectPolicy.NextDelay
 //@   preserves-type proxycore.Cluster, proxycore.ClusterConfig
@@ -867,6 +874,7 @@ func verifHosts(l *roundRobinLoadBalancer) []*Host { return l.hosts.Load().([]*H
 //@   invariant outage-only-without-connection: c.controlConn != nil ==> $outageZero [C16]
 //@   invariant reset-after-success: $clReconnected ==> $clReset [C16]
 //@   invariant backoff-from-policy: $clTimersOK [C16]
+//@   invariant own-policy: $clOwnPolicy [C16]
 //@   invariant timers: refreshTimer != nil && connectTimer != nil && refreshTimer != connectTimer [C16]
 //@   invariant pending-refresh-armed: pendingRefresh ==> refreshTimer.$armed [C16]
 //@   invariant pending-connect-armed: pendingConnect ==> connectTimer.$armed [C16]
@@ -887,10 +895,12 @@ func verifHosts(l *roundRobinLoadBalancer) []*Host { return l.hosts.Load().([]*H
 //@   local $clReset bool = false
 //@   local $clLastDelay time.Duration = 0
 //@   local $clTimersOK bool = true
+//@   local $clOwnPolicy bool = true
 //@   after proxycore.ReconnectPolicy.NextDelay#* set $clLastDelay = result
+//@   before proxycore.ReconnectPolicy.NextDelay#* set $clOwnPolicy = $clOwnPolicy && fresh(recv)
 //@   before time.NewTimer#* set $clTimersOK = $clTimersOK && (arg0 == $clLastDelay || arg0 == getOrUseDefault(c.config.RefreshWindow, DefaultRefreshWindow))
 //@   after proxycore.Cluster.reconnect#* set $clReconnected = result
-//@   before proxycore.ReconnectPolicy.Reset#* set $clReset = true
+//@   before proxycore.ReconnectPolicy.Reset#* set $clReset = true; $clOwnPolicy = $clOwnPolicy && fresh(recv)
 //@   requires after-start-up: clusterOK(c) && connOK(c.controlConn) && (c.controlConn != nil ==> $outageZero) [C16]
 //@   after select#* set $evTaken = (selidx == 4); $evFwd = false; $evListeners = len(c.listeners); $evMsg = recv4.Body.Message
 //@   after select#* set $clReconnected = false; $clReset = false
